@@ -1,4 +1,4 @@
-import CssVerif.Model.SheetEdit
+import CssVerif.Model.SheetBlocks
 /-!
 Line-protocol driver for the rule-list edit machine (C09). Stateful: one sheet per `reset`.
 
@@ -20,11 +20,27 @@ requests (one per line)                                   reply
   nbroken <path>                                          container.cssText = <trailing content / unclosed block>
   mode <0|1>
   reparse                                                  R <kinds tree of the reparsed sheet>  (state unchanged)
+  dnew <path> <items> <form 0|1|2>                         rule.style = CSSStyleDeclaration(cssText=…) | rule.style = text | rule.cssText = …
+  dshare <path> <path>                                     rule.style = other.style
+  dtext <path> <items>                                     rule.style.cssText = text
+  dset <path> <name> <wf> <empty> <replace>                rule.style.setProperty(name, value, replace=…) / style[name] = value
+  dsetobj <path> <name>                                    rule.style.setProperty(Property(name, value))
+  ddel <path> <name>                                       rule.style.removeProperty(name) / del style[name]
+  rawdel <path|-> <int>                                    del sheet.cssRules[i] (`-`) / del rule.cssRules[i]
+  rawins <spec> <int>                                      sheet.cssRules.insert(i, rule)
+  reins <path> <index|N>                                   sheet.insertRule(<the rule object at path>, index)
+  dshareprop <path> <path> <i>                             rule.style.setProperty(<i-th Property object of the other rule's block>)
+
+items = `<name cps>:<wellformed 0|1>` joined by `,` (or `-`)
 
 spec  = nodes in preorder joined by `,`; node = `<type code>/<pre>/<uri>/<enc>/<used+used…|->/<number of kids>`
 path  = indexes joined by `.`
 dump  = `enc=<cps> ns=<pre>=<uri>,… rules=<rule>,… gone=<rule>;…` (gone sorted)
-rule  = `<type code><S|-><-|C|X|L|G>[~<pre>~<uri> | ~<enc> | ~<margin>][(<rule>,…)]`
+rule  = `<type code><S|-><-|C|X|L|G>[~<pre>~<uri> | ~<enc> | ~<margin>][<block>][(<rule>,…)]`
+block = `{<R|-|X><prop>+<prop>…}` of a rule with a style: `_parentRule` is the rule / None / something else; prop =
+        `<name cps><P|-|X>`: `_parent` is the block / None / something else
+dump ends with ` gb=<block>;…` (replaced blocks, sorted; `-`/`X`: names nothing / something) and ` gp=<prop>,…` (loose
+properties, sorted)
 -/
 open CssVerif.Proto CssVerif.SheetEdit
 
@@ -121,10 +137,28 @@ def showExtra (r : Rule) : String :=
   else if r.kind = .margin then "~" ++ encCps r.pre
   else ""
 
+def showProp (ds : DSt) (b : Option BId) (p : PId) : String :=
+  encCps (ds.ph.name p) ++ (match ds.ph.parent p with
+    | none => "-"
+    | some x => if some x = b then "P" else "X")
+
+/-- properties whose name is outside the pool of the operations (shown as `-`) are shown once per run: a parsed
+@page text merges the declarations of a repeated margin into one rule, which the model does not follow -/
+def collapse : List String → List String
+  | a :: b :: rest => if a == b && a.startsWith "-" then collapse (b :: rest) else a :: collapse (b :: rest)
+  | l => l
+
+/-- the block object `b` as seen from the rule `rid` that holds it (`none`: a replaced block) -/
+def showBlock (ds : DSt) (rid : Option Nat) (b : BId) : String :=
+  let link := match ds.bprule b with
+    | none => "-"
+    | some r => if some r = rid then "R" else "X"
+  "{" ++ link ++ "+".intercalate (collapse ((ds.bprops b).map (showProp ds (some b)))) ++ "}"
+
 mutual
 /-- `container`: id of the rule whose list holds `r` (none: the sheet's list, or a root of `gone`);
 `root`: how to show a parent rule link of an object that has no container -/
-def showRule (live : List Nat) (container : Option Nat) : Rule → String
+def showRule (ds : DSt) (live : List Nat) (container : Option Nat) : Rule → String
   | ⟨i, k, pre, uri, enc, used, pss, prule, kids⟩ =>
     let link := match prule, container with
       | none, _ => "-"
@@ -132,10 +166,11 @@ def showRule (live : List Nat) (container : Option Nat) : Rule → String
       | some p, none => if live.contains p then "L" else "G"
     let r : Rule := ⟨i, k, pre, uri, enc, used, pss, prule, []⟩
     toString (Gen.code k) ++ (if pss then "S" else "-") ++ link ++ showExtra r ++
-      (if k = .media || k = .page then "(" ++ ",".intercalate (showRules live (some i) kids) ++ ")" else "")
-def showRules (live : List Nat) (container : Option Nat) : List Rule → List String
+      (if styled k then showBlock ds (some i) (ds.style i) else "") ++
+      (if k = .media || k = .page then "(" ++ ",".intercalate (showRules ds live (some i) kids) ++ ")" else "")
+def showRules (ds : DSt) (live : List Nat) (container : Option Nat) : List Rule → List String
   | [] => []
-  | r :: rs => showRule live container r :: showRules live container rs
+  | r :: rs => showRule ds live container r :: showRules ds live container rs
 end
 
 mutual
@@ -151,15 +186,65 @@ def showDict (d : Dict) : String :=
   let items := (d.map (fun e => encCps e.1 ++ "=" ++ encCps e.2)).mergeSort (fun a b => a ≤ b)
   if items.isEmpty then "-" else ",".intercalate items
 
-def dump (st : St) : String :=
+def dump (ds : DSt) : String :=
+  let st := ds.st
   let live := liveIdsL st.rules
-  let rules := showRules live none st.rules
-  let gone := (showRules live none st.gone).mergeSort (fun a b => a ≤ b)
+  let rules := showRules ds live none st.rules
+  let gone := (showRules ds live none st.gone).mergeSort (fun a b => a ≤ b)
+  let held := (live ++ liveIdsL st.gone).map ds.style
+  let gb := ((ds.goneB.eraseDups.filter (fun b => !held.contains b)).map (showBlock ds none)).mergeSort (fun a b => a ≤ b)
+  let seen := held ++ ds.goneB
+  let gp := collapse (((ds.goneP.eraseDups.filter (fun p => !seen.any (fun b => (ds.bprops b).contains p))).map
+    (showProp ds none)).mergeSort (fun a b => a ≤ b))
   "enc=" ++ encCps (encodingOf st.rules) ++ " ns=" ++ showDict (nsDict st.rules) ++
     " rules=" ++ (if rules.isEmpty then "-" else ",".intercalate rules) ++
-    " gone=" ++ (if gone.isEmpty then "-" else ";".intercalate gone)
+    " gone=" ++ (if gone.isEmpty then "-" else ";".intercalate gone) ++
+    " gb=" ++ (if gb.isEmpty then "-" else ";".intercalate gb) ++
+    " gp=" ++ (if gp.isEmpty then "-" else ",".intercalate gp)
 
-def reply (r : St × Outcome) : St × String := (r.1, showOutcome r.2 ++ " | " ++ dump r.1)
+def reply (r : DSt × Outcome) : DSt × String := (r.1, showOutcome r.2 ++ " | " ++ dump r.1)
+
+def decItems (s : String) : Option (List (Cps × Bool)) :=
+  if s == "-" then some [] else
+  (s.splitOn ",").foldr (fun w acc => match w.splitOn ":", acc with
+    | [n, b], some l => match decCps n, decBool b with
+      | some n, some b => some ((n, b) :: l)
+      | _, _ => none
+    | _, _ => none) (some [])
+
+def decDOp (ws : List String) : Option DOp :=
+  match ws with
+  | ["dnew", p, items, f] => match decPath p, decItems items, f.toNat? with
+    | some p, some l, some f => if f < 3 then some (.newStyle p l f) else none
+    | _, _, _ => none
+  | ["dshare", p, q] => match decPath p, decPath q with
+    | some p, some q => some (.shareStyle p q)
+    | _, _ => none
+  | ["dtext", p, items] => match decPath p, decItems items with
+    | some p, some l => some (.blockText p l)
+    | _, _ => none
+  | ["dset", p, n, wf, e, r] => match decPath p, decCps n, decBool wf, decBool e, decBool r with
+    | some p, some n, some wf, some e, some r => some (.setProp p n wf e r)
+    | _, _, _, _, _ => none
+  | ["dsetobj", p, n] => match decPath p, decCps n with
+    | some p, some n => some (.setPropObj p n)
+    | _, _ => none
+  | ["dshareprop", p, q, i] => match decPath p, decPath q, i.toNat? with
+    | some p, some q, some i => some (.sharePropObj p q i)
+    | _, _, _ => none
+  | ["rawdel", p, i] => match (if p == "-" then some [] else decPath p), decInt i with
+    | some p, some i => some (.rawDelete p i)
+    | _, _ => none
+  | ["rawins", sp, i] => match decSpec sp, decInt i with
+    | some sp, some i => some (.rawInsert sp i)
+    | _, _ => none
+  | ["reins", p, i] => match decPath p, decIdx i with
+    | some p, some i => some (.reinsert p i)
+    | _, _ => none
+  | ["ddel", p, n] => match decPath p, decCps n with
+    | some p, some n => some (.removeProp p n)
+    | _, _ => none
+  | _ => none
 
 def decOp (ws : List String) : Option Op :=
   match ws with
@@ -202,14 +287,17 @@ def decOp (ws : List String) : Option Op :=
   | ["mode", b] => (decBool b).map .setMode
   | _ => none
 
-def handle (st : St) (line : String) : St × String :=
+def handle (ds : DSt) (line : String) : DSt × String :=
   match words line with
   | ["reset", b] => match decBool b with
-    | some b => reply (St.empty b, .none)
-    | none => (st, "bad-op")
-  | ["reparse"] => (st, "R " ++ (let l := showKindsL (reparse st).rules; if l.isEmpty then "-" else ",".intercalate l))
+    | some b => reply (DSt.init (St.empty b), .none)
+    | none => (ds, "bad-op")
+  | ["reparse"] =>
+    (ds, "R " ++ (let l := showKindsL (reparse ds.st).rules; if l.isEmpty then "-" else ",".intercalate l))
   | ws => match decOp ws with
-    | some op => reply (step st op)
-    | none => (st, "bad-op")
+    | some op => reply (dstep ds (.sheet op))
+    | none => match decDOp ws with
+      | some op => reply (dstep ds op)
+      | none => (ds, "bad-op")
 
-def main : IO Unit := serveSt (St.empty true) handle
+def main : IO Unit := serveSt (DSt.init (St.empty true)) handle
